@@ -42,7 +42,8 @@ class _Continue(Exception):
 
 
 _PURE_METHODS = {"join", "get", "items", "keys", "values", "upper", "lower", "encode", "decode", "replace", "split", "rsplit", "partition", "rpartition", "strip", "lstrip", "rstrip",
-                 "startswith", "endswith", "isdigit", "isnumeric", "find", "rfind", "count", "index", "hex", "format", "zfill", "removeprefix", "removesuffix", "copy"}
+                 "startswith", "endswith", "isdigit", "isnumeric", "find", "rfind", "count", "index", "hex", "format", "zfill", "removeprefix", "removesuffix", "copy",
+                 "append", "extend", "update", "pop", "insert", "clear", "setdefault", "isalpha", "isupper", "islower", "title"}
 _PURE_BUILTINS = {"int": int, "float": float, "str": str, "len": len, "bool": bool, "min": min, "max": max, "abs": abs, "round": round, "list": list, "tuple": tuple, "bytes": bytes}
 
 
@@ -164,8 +165,30 @@ class Interp:
                 r = self.hook(e, env, self)
                 if r is not UNKNOWN:
                     return r
-            if isinstance(e.func, ast.Name) and depth < self.max_depth:
-                fi = self.ctx.model.functions.get(f"{self.module.name}:{e.func.id}")
+            fi = None
+            if depth < self.max_depth and not self._mentions_obj(e.func, env):
+                if isinstance(e.func, ast.Name):
+                    fi = self.ctx.model.functions.get(f"{self.module.name}:{e.func.id}")
+                if fi is None and isinstance(e.func, (ast.Name, ast.Attribute)):
+                    ref = self.ctx.folder.eval(e.func, self.module, env={k: v_ for k, v_ in env.items() if not isinstance(v_, (Obj, Stream, Bound))})
+                    if isinstance(ref, FuncRef) and isinstance(ref.node, ast.FunctionDef):
+                        fi = self.ctx.model.func_by_node.get(ref.node)
+                        if fi is not None and (fi.cls is not None or "." in fi.qualname):
+                            fi = None  # methods are not helpers: codecs etc. have their own witnesses
+            if fi is not None and fi.module is not self.module and not e.keywords:
+                # a module-level helper of another module: interpret it in its own module
+                args = [self.ev(a, env, depth) for a in e.args]
+                params = [a.arg for a in fi.node.args.args]
+                if len(args) <= len(params):
+                    env2 = dict(zip(params, args))
+                    defaults = fi.node.args.defaults
+                    other = Interp(self.ctx, fi.module, self.hook, self.max_depth, self.cls)
+                    for p_, d_ in zip(params[len(params) - len(defaults):], defaults):
+                        if p_ not in env2:
+                            env2[p_] = other.ev(d_, {}, depth)
+                    other.steps = self.steps
+                    return other.call(fi.node, env2, depth + 1)
+            if fi is not None and depth < self.max_depth:
                 if fi is not None and not e.keywords:
                     args = [self.ev(a, env, depth) for a in e.args]
                     if any(a is UNKNOWN for a in args):
@@ -294,15 +317,23 @@ class Interp:
 
     def block(self, stmts, env, depth):
         for st in stmts:
+            try:
+                self._stmt(st, env, depth)
+            except (ArithmeticError, TypeError, ValueError, KeyError, IndexError, AttributeError) as err:
+                # a pure operation fails on the witness: that is the exception the interpreted code would raise there
+                raise _Raise(type(err).__name__)
+
+    def _stmt(self, st, env, depth):
+        if True:
             self.steps += 1
             if self.steps > 5000:
                 raise _Unknown("step budget")
             if isinstance(st, ast.Expr):
                 if isinstance(st.value, ast.Constant):
-                    continue
+                    return
                 self.effect(st.value, env, depth)
             elif isinstance(st, ast.Pass):
-                continue
+                return
             elif isinstance(st, ast.Assign):
                 v = self.ev(st.value, env, depth)
                 for t in st.targets:
@@ -398,10 +429,27 @@ class Interp:
         if isinstance(t, ast.Name):
             env[t.id] = v
         elif isinstance(t, (ast.Tuple, ast.List)):
-            if not isinstance(v, (tuple, list)) or len(v) != len(t.elts) or any(isinstance(x, ast.Starred) for x in t.elts):
+            if not isinstance(v, (tuple, list, str, bytes)):
                 raise _Unknown("unpacking")
-            for x, y in zip(t.elts, v):
-                self.store(x, y, env, depth)
+            v = list(v)
+            stars = [i for i, x in enumerate(t.elts) if isinstance(x, ast.Starred)]
+            if len(stars) > 1:
+                raise _Unknown("unpacking")
+            if stars:
+                i = stars[0]
+                after = len(t.elts) - i - 1
+                if len(v) < len(t.elts) - 1:
+                    raise ValueError("not enough values to unpack")
+                for x, y in zip(t.elts[:i], v[:i]):
+                    self.store(x, y, env, depth)
+                self.store(t.elts[i].value, v[i:len(v) - after], env, depth)
+                for x, y in zip(t.elts[i + 1:], v[len(v) - after:]):
+                    self.store(x, y, env, depth)
+            else:
+                if len(v) != len(t.elts):
+                    raise ValueError("wrong number of values to unpack")
+                for x, y in zip(t.elts, v):
+                    self.store(x, y, env, depth)
         elif isinstance(t, ast.Subscript) and isinstance(t.value, ast.Name) and t.value.id in env and isinstance(env[t.value.id], (dict, list)):
             k = self.ev(t.slice, env, depth)
             env[t.value.id][k] = v
